@@ -272,8 +272,11 @@ func closeStatus(p *Prog, a acquisition) (bool, string) {
 						for cur := p.Parent(as); cur != nil && cur != lit; cur = p.Parent(cur) {
 							if ifs, ok := cur.(*ast.IfStmt); ok {
 								for _, r := range results {
-									if o, nonNil, ok := errNilTest(info, ifs.Cond); ok && o == r && nonNil {
-										guarded = true
+									// any conjunct `<result> != nil` makes the join unreachable when the body succeeded
+									for _, t := range splitAnd(ifs.Cond) {
+										if o, nonNil, ok := errNilTest(info, t); ok && o == r && nonNil {
+											guarded = true
+										}
 									}
 								}
 							}
